@@ -21,7 +21,7 @@ ASSUMPTIONS = ["float-valued distances and edges are multiples of 0.25 (exactly 
                "values outside [first edge, last edge] are dropped by the NumPy histogram convention and are not part of the total"]
 EXHAUSTIVE = {"quick": ["all multisets of size 2..4 over {'', A, B, AB} with bins range(4), counts"],
               "thorough": ["all multisets of size 2..5 over {'', A, B, AB, BA}", "all pairs (xs, ys) of multisets of size 1..3 over {A, B, AB}"]}
-REQUIRE = {"same_collection_other_metric_parameters": 14, "hist_cases": 80, "two_collection_cases": 13, "recording_metric_calls": 23, "pseudocount_cases": 15,
+REQUIRE = {"hist_big_cases": 1, "same_collection_other_metric_parameters": 14, "hist_cases": 80, "two_collection_cases": 13, "recording_metric_calls": 23, "pseudocount_cases": 15,
            "unnormalized_cases": 20, "values_beyond_last_edge_cases": 8, "float_metric_cases": 8, "bins0_cases": 12,
            "table_cases": 18, "table_alpha_only": 3, "table_beta_only": 3, "table_both": 5, "legacy_tuple_cases": 3,
            "maxseqs_cases": 12, "maxseqs_subsampled": 9, "maxseqs_table_cases": 3, "background_checked": 1,
